@@ -143,7 +143,8 @@ def make_raw(toks, form):
     if form == "string" and not any(c in t for t in toks for c in "'\"\\"):
         return StringArgs(" ".join('"%s"' % t for t in toks)), None
     argv = ["prog"] + list(toks)
-    return ArgvArgs(argv), argv
+    before = list(argv)
+    return ArgvArgs(argv), (argv, before)
 
 
 def event(f, fobj, tokens, lenient, parser=None, mut=None, recipe=None, form="argv"):
@@ -153,8 +154,8 @@ def event(f, fobj, tokens, lenient, parser=None, mut=None, recipe=None, form="ar
 
     toks = ["".join(t) for t in tokens]
     before = listing(fobj)
-    raw, argv = make_raw(toks, form)
-    argv0 = list(argv) if argv is not None else None
+    raw, pair = make_raw(toks, form)
+    argv, argv0 = pair if pair is not None else (None, None)   # the caller's list as handed in / as it was before
     tok0 = list(raw.tokens)
     p = parser or DefaultArgsParser()
     extra = None
